@@ -13,7 +13,7 @@ import genmodels as G
 
 IMPORTS = ("From XV Require Import Base.Str Model.Bind Model.Parser Model.ParserCorr Model.Reader Model.ReaderCorr "
            "Model.ParserInvCorr Proofs.ParserInvWs Proofs.ParserInvAttrs Proofs.ParserCtx Proofs.ParserCtxGuard.")
-FAMILIES = ["f3", "ws", "attrs", "redecl", "rename", "rename_qname", "list_ws", "xinclude"]
+FAMILIES = ["f3", "ws", "attrs", "redecl", "rename", "rename_qname", "wrapper_decl", "list_ws", "xinclude"]
 GUARD_DEFS = """
 Definition ws_guard (x : c09_case) : bool :=
   let '(cfg, t, u, root, e1, e2, _, _) := x in
@@ -41,7 +41,8 @@ def guard_jobs(ck):
     jobs = [{"id": 0, "seed": r.randrange(1 << 30), "model": {"c08": "any_attrs"}},
             {"id": 1, "seed": r.randrange(1 << 30), "model": {"c08": "scoped_qname"}, "n": ck.n(16, 150)},
             {"id": 2, "seed": r.randrange(1 << 30), "model": {"list_ws": True}, "n": ck.n(10, 100)},
-            {"id": 3, "seed": r.randrange(1 << 30), "model": {"xinclude": True}, "n": ck.n(8, 60)}]
+            {"id": 3, "seed": r.randrange(1 << 30), "model": {"xinclude": True}, "n": ck.n(8, 60)},
+            {"id": 4, "seed": r.randrange(1 << 30), "model": {"wrapped_qname": True}, "n": ck.n(12, 120)}]
     for _ in range(ck.n(30, 300)):
         k = r.random()
         sl = ["F1"] if k < 0.35 else (["F1", "F2"] if k < 0.6 else ["F1", "F2", "F3"])
@@ -82,9 +83,10 @@ def guard_check(ck, fut):
                        {"job": {"seed": j["seed"], "model": j["model"]}})
             continue
         for x in j.get("xinclude", []):
-            st = stats["by_kind"].setdefault("xinclude", {"pairs": 0, "repeated_href": 0, "outcomes_differ": 0})
+            st = stats["by_kind"].setdefault("xinclude", {"pairs": 0, "repeated_href": 0, "annotated_included": 0, "outcomes_differ": 0})
             st["pairs"] += 1
             st["repeated_href"] += bool(x.get("repeated_href"))
+            st["annotated_included"] += bool(x.get("annotated_included"))
             if x.get("why"):
                 st["outcomes_differ"] += 1
                 ck.failure(f"rewrite-xinclude-{x['handler']}", f"document split with XInclude ({x['handler']} handler, {x['source']}): {x['why']}; "
@@ -135,6 +137,13 @@ def guard_check(ck, fut):
                 ck.failure("rewrite-rename_qname", f"renaming every declared prefix (declarations and QName / xsi:type uses together) changes "
                                                    f"the parsed object: {c['doc'][:300]!r} vs {c['doc2'][:300]!r}: {c['summary']}", rp)
             continue
+        if kind == "wrapper_decl":
+            # declarations carried by a wrapper element (WrapperNode): the same document with every prefix renamed, and with
+            # the wrapper's declarations written on each wrapped item instead; QName content re-spelled: oracle + model_agrees
+            if not same:
+                ck.failure("rewrite-wrapper_decl", f"namespace declarations on a wrapper element ({c.get('what')}): the parsed object changes "
+                                                   f"with the spelling: {c['doc'][:400]!r} vs {c['doc2'][:400]!r}: {c['summary']}", rp)
+            continue
         g = i not in badsets[guard_of[kind]]
         st["guard_true"] += g
         if not same:
@@ -151,6 +160,8 @@ def guard_check(ck, fut):
             ck.broken_obligation(f"guard-check: family {fam} produced no judged case", json.dumps(stats)[:2000])
     if stats["by_kind"].get("xinclude", {}).get("repeated_href", 0) == 0:
         ck.broken_obligation("guard-check: no XInclude document includes one file twice", json.dumps(stats)[:2000])
+    if stats["by_kind"].get("xinclude", {}).get("annotated_included", 0) == 0:
+        ck.broken_obligation("guard-check: no XInclude document includes a file with comments / processing instructions", json.dumps(stats)[:2000])
     return stats
 
 NOQ = [p for p in G.PRIMS if p != "QName"]
